@@ -1,4 +1,5 @@
 import KV.Model.Rlp
+-- kvdrv: rlp KV.Drv.C16.step ()
 /-! line protocol for the RLP model (property C16) -/
 namespace KV.Drv.C16
 open KV KV.Rlp
